@@ -38,7 +38,14 @@ def claimedOf (b : Bytes) : Nat :=
     | .ok ((ph, gs), _) =>
       match updateHeader fops { hdr := h, ph := ph, groups := gs, frames := [] } with
       | .ok c1 =>
+        -- counts the data reader refuses at once (length_error before anything is allocated or read) cost nothing: those files
+        -- ARE replayed on the library; only counts it would really iterate over are "claimed"
         if c1.hdr.nbFrames > maxFrames then 0
+        else if c1.hdr.nbFrames = 0 then 0
+        else if ¬ (c1.hdr.scale < 0) then 0
+        else if c1.hdr.nbPoints > maxPoints then 0
+        else if c1.hdr.nbAnalogByFrame > maxSubframes then 0
+        else if c1.hdr.nbAnalogByFrame > 0 ∧ c1.hdr.nbAnalogs > maxChannels then 0
         else c1.hdr.nbFrames * (4 * c1.hdr.nbPoints + c1.hdr.nbAnalogByFrame * c1.hdr.nbAnalogs + 1)
       | _ => 0
     | _ => 0
@@ -184,6 +191,15 @@ def stepLine (d : DState) (n : Nat) (line : String) : IO (DState × List String)
       | .throw e gs' => return ({ d with sp := gs' }, hd :: s!"R throw {e}" :: spLines gs')
       | .ub k => return (d, [hd, s!"R ub {k.toString}"])
     | ["pgroupnc", i] => return (d, [hd, resStr (fun (g : Group) => s!"{xhex g.name} {g.params.length}") (atIdx d.sp (parseNat! i))])
+    | ["prename", i, nm] =>
+      match atIdx d.sp (parseNat! i) with
+      | .ok _ =>
+        let gs' := d.sp.modify (parseNat! i) fun g => { g with name := X nm }
+        return ({ d with sp := gs' }, hd :: "R ok" :: spLines gs')
+      | .throw e => return (d, hd :: s!"R throw {e}" :: spLines d.sp)
+      | .ub k => return (d, [hd, s!"R ub {k.toString}"])
+    | ["pgroupidx", nm] => return (d, [hd, resStr toString (groupIdx d.sp (X nm))])
+    | ["pgroupn", nm] => return (d, [hd, resStr (fun (g : Group) => s!"{xhex g.name} {g.params.length}") (byName Group.name d.sp (X nm))])
     | _ => return (d, [hd, "R badop"])
   | ["cpframe", v, i] =>
     -- a by-value copy of a stored frame: as a value, the frame itself
@@ -201,6 +217,17 @@ def stepLine (d : DState) (n : Nat) (line : String) : IO (DState × List String)
     let f' : Frame := match rest with
       | "pt" :: i :: xs => { f with pts := f.pts.modify (parseNat! i) (updPoint · xs) }
       | ["addpt", p] => { f with pts := f.pts ++ [(parsePoint p).getD {}] }
+      | ["ptname", i, nm] => { f with pts := f.pts.modify (parseNat! i) (·.setName (X nm)) }
+      | ["chn", k, nm, x] =>
+        -- the first channel of that name in sub-frame k (nothing happens when there is none: the harness swallows the exception)
+        { f with subs := f.subs.modify (parseNat! k) fun sf =>
+            match sf.findIdx? (fun c => c.name == X nm) with
+            | some j => sf.modify j fun c => { c with v := (parseF x).getD 0 }
+            | none => sf }
+      | ["ptn", nm, x] =>
+        match f.pts.findIdx? (fun p => p.name == X nm) with
+        | some j => { f with pts := f.pts.modify j fun p => { p with x := (parseF x).getD 0 } }
+        | none => f
       | ["ch", k, i, x] => { f with subs := f.subs.modify (parseNat! k) fun sf => sf.modify (parseNat! i) fun c => { c with v := (parseF x).getD 0 } }
       | _ => f
     return (d.setVar v f', [hd])
@@ -256,6 +283,14 @@ def stepLine (d : DState) (n : Nat) (line : String) : IO (DState × List String)
             (match (atIdx f.subs (parseNat! k)).bind fun sf => (atIdx sf (parseNat! j)).bind fun c => .ok (sf, c) with
              | .ok (sf, c) => .ok { s with frames := s.frames.set i { f with subs := f.subs.set (parseNat! k) (sf.set (parseNat! j) (c.setName (X nm))) } }
              | .throw e => .throw e s | .ub k => .ub k)
+          | ["chn", k, nm, x] =>
+            (match (atIdx f.subs (parseNat! k)).bind fun sf => (nameIdx Channel.name sf (X nm)).bind fun j => (atIdx sf j).bind fun c => .ok (sf, j, c) with
+             | .ok (sf, j, c) => .ok { s with frames := s.frames.set i { f with subs := f.subs.set (parseNat! k) (sf.set j { c with v := (parseF x).getD 0 }) } }
+             | .throw e => .throw e s | .ub k => .ub k)
+          | ["ptn", nm, x] =>
+            (match (nameIdx Point.name f.pts (X nm)).bind fun j => (atIdx f.pts j).bind fun p => .ok (j, p) with
+             | .ok (j, p) => .ok { s with frames := s.frames.set i { f with pts := f.pts.set j { p with x := (parseF x).getD 0 } } }
+             | .throw e => .throw e s | .ub k => .ub k)
           | ["ch", k, j, x] =>
             (match (atIdx f.subs (parseNat! k)).bind fun sf => (atIdx sf (parseNat! j)).bind fun c => .ok (sf, c) with
              | .ok (sf, c) => .ok { s with frames := s.frames.set i { f with subs := f.subs.set (parseNat! k) (sf.set (parseNat! j) { c with v := (parseF x).getD 0 }) } }
@@ -272,7 +307,9 @@ def stepLine (d : DState) (n : Nat) (line : String) : IO (DState × List String)
         return (d, hd :: "R ok" :: dumpLines d.mode s)
       | .throw e => return (d, hd :: s!"R throw {e}" :: dumpLines d.mode s)
       | .ub k => return (d, [hd, s!"R ub {k.toString}"])
-    | ["savefault", _path, k] =>
+    | "savefault" :: _path :: k :: _once =>
+      -- a transient fault (`once`: one write call refused, later ones accepted) is reported like a persistent one: the stream
+      -- keeps its failed state, so the outcome depends only on whether the refusal fired, i.e. on k against the bytes written
       match s.saveTo (.accepts (parseNat! k)) with
       | .ok _ =>
         let n := match s.write with | .ok b => writeCallBytes s b | _ => 0
